@@ -34,6 +34,9 @@ type vc29Recorder struct{ evs []vc29Event }
 
 var vc29Seq int64
 
+// vc29HungOnce: a scenario hung; later cases are not run (each would cost the full watchdog time)
+var vc29HungOnce bool // hungOnce
+
 func (r *vc29Recorder) log(format string, a ...any) {
 	r.evs = append(r.evs, vc29Event{atomic.AddInt64(&vc29Seq, 1), fmt.Sprintf(format, a...)})
 }
@@ -73,6 +76,9 @@ func vc29Gen(r *vu.Rng, i int) []string {
 
 // vc29RunGate runs G goroutines × K iterations on one gate.
 func vc29RunGate(G, K int, init bool, s uint64, stats map[string]int) ([]vc29Event, [][2]string) {
+	if vc29HungOnce {
+		return nil, nil
+	}
 	g := newGate()
 	if init {
 		g.lock()
@@ -201,6 +207,9 @@ var vc29ErrClosed = errors.New("verif: queue closed")
 // reports closed. mode 0: the consumer that receives the last of the P*K items closes the queue
 // (everything is delivered); mode 1: a closer goroutine closes at a random moment.
 func vc29RunQueue(P, C, K, mode int, s uint64, stats map[string]int) ([]vc29Event, [][2]string) {
+	if vc29HungOnce {
+		return nil, nil
+	}
 	q := newQueue[int]()
 	total := int64(P * K)
 	var got int64
@@ -443,6 +452,11 @@ func vc29Exec(ops []string, o *vu.Out) {
 		default:
 			o.Op(op, "bad-op")
 			continue
+		}
+		for _, f := range fails {
+			if f[0] == "hang" {
+				vc29HungOnce = true
+			}
 		}
 		o.Op(op, "ok")
 		for _, e := range evs {
